@@ -138,6 +138,14 @@ class Walker:
                 raise Unsupported("constant_reference to %s" % type(obj).__name__)
         elif w == "function":
             name = _FN.get(e.function.function.name)
+            if name == "$present" and len(e.function.args) == 1 and e.function.args[0].which_expression == "field_reference":
+                # the operand is a name, not a value: the path as written, by the local names of its elements
+                path = e.function.args[0].field_reference.path
+                if any(r.canonical_name.object_path[-1].startswith("emboss_reserved") for r in path):
+                    # the synthesized condition of an alias of an anonymous bits member: scaffolding, not the case's text
+                    raise Unsupported("function PRESENCE of a synthesized field")
+                node.update({"k": "pres", "n": ".".join(r.canonical_name.object_path[-1] for r in path)})
+                return node
             if name is None or name == "$present":
                 raise Unsupported("function %s" % e.function.function.name)
             node.update({"k": "op", "fn": name, "args": [self.tree(a, depth) for a in e.function.args]})
